@@ -113,7 +113,7 @@ type Scenario struct {
 	OnConnect   [][]InMsg `json:"on_connect,omitempty"`
 	WaitBaseMs  int       `json:"wait_base_ms,omitempty"`
 	WaitMaxMs   int       `json:"wait_max_ms,omitempty"`
-	TimeoutMs   int       `json:"timeout_ms,omitempty"`      // connect timeout of the reconnect client
+	TimeoutMs   int       `json:"timeout_ms,omitempty"`      // connect/ping timeout of the reconnect client (0: 2 s; <0: library default)
 	RespMs      int       `json:"resp_timeout_ms,omitempty"` // RetryClient.ResponseTimeout
 	PingMs      int       `json:"ping_ms,omitempty"`
 	SlowActive  bool      `json:"slow_active,omitempty"` // the ConnState(Active) callback yields for a while (steering)
@@ -327,7 +327,7 @@ func Exec(sc *Scenario) *Run {
 		max = 4
 	}
 	to := sc.TimeoutMs
-	if to == 0 {
+	if to <= 0 {
 		to = 2000
 	}
 	retry := &mqtt.RetryClient{}
@@ -556,13 +556,15 @@ func Exec(sc *Scenario) *Run {
 	case "reconnect", "":
 		opts := []mqtt.ReconnectOption{
 			mqtt.WithReconnectWait(time.Duration(base)*time.Millisecond, time.Duration(max)*time.Millisecond),
-			mqtt.WithTimeout(time.Duration(to) * time.Millisecond),
 			mqtt.WithRetryClient(retry),
 			mqtt.WithAlwaysResubscribe(sc.AlwaysResub),
 		}
 		if sc.PingMs > 0 {
 			opts = append(opts, mqtt.WithPingInterval(time.Duration(sc.PingMs)*time.Millisecond))
 		}
+		if sc.TimeoutMs >= 0 {
+			opts = append(opts, mqtt.WithTimeout(time.Duration(to)*time.Millisecond))
+		} // TimeoutMs < 0: the library default (Timeout = PingInterval) applies
 		rc, err := mqtt.NewReconnectClient(d, opts...)
 		if err != nil {
 			r.Inconcl = "NewReconnectClient: " + err.Error()
